@@ -17,6 +17,9 @@ import (
 	"bytes"
 	"fmt"
 	"os"
+	"regexp"
+	"strconv"
+	"strings"
 	"time"
 
 	"github.com/fsnotify/fsnotify"
@@ -61,9 +64,19 @@ type c15bWorld struct {
 	armedFile *tailFile
 	closed    bool
 	closedAt  time.Duration
+	// command-line mode: `rare filter -l -f|-F [--poll] [--tail]` in-process instead of TailFilesToChan + consumer
+	cli     bool
+	workers int
+	proc    *cliProc
+	outOff  int
+	seen    map[string]map[uint64]bool
+	cliArgs []string
 }
 
 func (w *c15bWorld) mode() string {
+	if w.cli {
+		return fmt.Sprintf("`rare %s` (follow mode through the command line) files=%d", strings.Join(w.cliArgs, " "), len(w.files))
+	}
 	return fmt.Sprintf("TailFilesToChan poll=%v reopen=%v tail=%v batch=%d files=%d", w.poll, w.reopen, w.tail, w.batchSize, len(w.files))
 }
 
@@ -142,13 +155,97 @@ func completeLines(data []byte) [][]byte {
 
 func (w *c15bWorld) waitUntil(limit time.Duration, cond func() bool) bool {
 	for el := time.Duration(0); el < limit; el += 50 * time.Millisecond {
+		w.pollStdout()
 		if cond() {
 			return true
 		}
 		time.Sleep(50 * time.Millisecond)
 		simrt.Yield("world:wait")
 	}
+	w.pollStdout()
 	return cond()
+}
+
+var cliLinePrefix = regexp.MustCompile(`^(\S+) (\d+): `)
+
+// pollStdout (command-line mode) reads what `rare filter -l` has printed since the last call and checks every complete
+// output line: its source is a followed path, its number and text are those of one line of the appended stream, no line is
+// printed twice, and with one worker the lines of a source come in order.
+func (w *c15bWorld) pollStdout() {
+	if !w.cli || w.proc == nil {
+		return
+	}
+	if w.proc.Done && !w.closed {
+		w.closed = true
+		w.closedAt = w.s.Now()
+	}
+	data, err := os.ReadFile(w.proc.OutName)
+	if err != nil || len(data) <= w.outOff {
+		return
+	}
+	rest := data[w.outOff:]
+	for {
+		nl := bytes.IndexByte(rest, '\n')
+		if nl < 0 {
+			break
+		}
+		line := rest[:nl]
+		rest = rest[nl+1:]
+		w.outOff += nl + 1
+		w.onPrinted(line)
+	}
+}
+
+func (w *c15bWorld) onPrinted(line []byte) {
+	if w.bad {
+		return
+	}
+	m := cliLinePrefix.FindSubmatch(line)
+	if m == nil {
+		w.bad = true
+		w.rc.Violate("cli-follow-output-shape", "%s: printed line %q does not have the form `<source> <line>: <text>`\nhistory:%s", w.mode(), line, w.history())
+		return
+	}
+	src, text := string(m[1]), line[len(m[0]):]
+	n, _ := strconv.ParseUint(string(m[2]), 10, 64)
+	tf := w.byPath[src]
+	if tf == nil {
+		w.bad = true
+		w.rc.Violate("batch-source", "%s: a printed line names the source %q, which is not a followed path", w.mode(), src)
+		return
+	}
+	ref := refSplit(tf.expected)
+	limit := len(completeLines(tf.expected))
+	if tf.streamOver {
+		limit = len(ref)
+	}
+	if w.seen[src] == nil {
+		w.seen[src] = map[uint64]bool{}
+	}
+	switch {
+	case w.seen[src][n]:
+		w.bad = true
+		w.rc.Violate("lines-not-a-prefix-duplicate", "%s: line %d of %s was printed twice (second time as %q)\nhistory:%s", w.mode(), n, src, text, w.history())
+	case n < 1 || int(n) > limit || !bytes.Equal(ref[n-1], text):
+		w.bad = true
+		want := "(nothing: the appended stream has no such complete line)"
+		if n >= 1 && int(n) <= len(ref) {
+			want = fmt.Sprintf("%q", ref[n-1])
+		}
+		kind := "loss-or-reorder"
+		for _, d := range tf.lines {
+			if len(text) > 0 && bytes.Equal(d, text) {
+				kind = "duplicate"
+			}
+		}
+		w.rc.Violate("lines-not-a-prefix-"+kind, "%s: printed `%s %d: %s` at fake t=%v; line %d of the stream appended to %s after the start position is %s (%d complete lines appended so far)\nhistory:%s",
+			w.mode(), src, n, text, w.s.Now(), n, src, want, limit, w.history())
+	case w.workers == 1 && int(n) != len(tf.lines)+1:
+		w.bad = true
+		w.rc.Violate("batch-line-number", "%s: %s: line %d printed after %d lines (one worker: lines of a source come in order)\nhistory:%s", w.mode(), src, n, len(tf.lines), w.history())
+	}
+	w.seen[src][n] = true
+	tf.lines = append(tf.lines, append([]byte(nil), text...))
 }
 
 func (w *c15bWorld) appendTo(tf *tailFile, data []byte) {
@@ -250,6 +347,12 @@ func c15BatchWorld(rc *RunCtx) {
 	nFiles := 1 + t.W(3)
 	nOps := t.WRange(1, 14)
 	withMissing := !w.reopen && nFiles > 1 && t.WBool(1, 6)
+	w.cli = rc.Mode != simrt.ModeFree && t.WBool(1, 3)
+	if w.cli {
+		w.consPm = 0
+		w.workers = []int{1, 1, 2, 3}[t.W(4)]
+		w.seen = map[string]map[uint64]bool{}
+	}
 	opts := simrt.Opts{MaxSteps: 400000, IdleLimit: time.Hour}
 	if t.WBool(2, 3) {
 		opts.Knobs = map[string]int{"rare/pkg/extractor/batchers.ReadAheadBufferSize": []int{1, 2, 5, 16, 64, 1024}[t.W(6)]}
@@ -319,10 +422,41 @@ func c15BatchWorld(rc *RunCtx) {
 			names <- tf.path
 		}
 		close(names)
-		batcher = batchers.TailFilesToChan(names, w.batchSize, buffer, w.reopen, w.poll, w.tail)
-		simrt.Yield("world:started")
-		simrt.Go("world:consumer", func() { w.consumer(batcher) })
-		simrt.Yield("world:spawned-consumer")
+		if w.cli {
+			args := []string{"filter", "-l", "--batch", strconv.Itoa(w.batchSize), "--batch-buffer", strconv.Itoa(buffer), "--workers", strconv.Itoa(w.workers)}
+			switch {
+			case w.reopen && t.WBool(1, 2):
+				args = append(args, "-F")
+			case w.reopen:
+				args = append(args, []string{"--reopen", "-f"}[:1+t.W(2)]...)
+			default:
+				args = append(args, []string{"-f", "--follow"}[t.W(2)])
+			}
+			if w.poll {
+				args = append(args, "--poll")
+			}
+			if w.tail {
+				args = append(args, []string{"--tail", "-t"}[t.W(2)])
+			}
+			if t.WBool(1, 3) {
+				args = append(args, "-e", "{0}")
+			}
+			for range w.files {
+				<-names
+			}
+			for _, tf := range w.files {
+				args = append(args, tf.path)
+			}
+			w.cliArgs = args
+			w.proc = cliBegin()
+			simrt.Go("world:cli", func() { w.proc.exec(args) })
+			simrt.Yield("world:spawned-cli")
+		} else {
+			batcher = batchers.TailFilesToChan(names, w.batchSize, buffer, w.reopen, w.poll, w.tail)
+			simrt.Yield("world:started")
+			simrt.Go("world:consumer", func() { w.consumer(batcher) })
+			simrt.Yield("world:spawned-consumer")
+		}
 		// the start position is defined once each reader is constructed (watcher established) and drained:
 		// TailFilesToChan registers the file as active right after that
 		nLive := 0
@@ -332,15 +466,21 @@ func c15BatchWorld(rc *RunCtx) {
 			}
 		}
 		ready := func() bool {
-			if batcher.ActiveFileCount() != nLive {
+			if !w.cli && batcher.ActiveFileCount() != nLive {
 				return false
 			}
 			for _, tf := range w.files {
-				seeks := 0
+				seeks, reads := 0, 0
 				for _, e := range s.FS.Log {
 					if e.Path == tf.path && e.Op == "seek" {
 						seeks++
 					}
+					if e.Path == tf.path && e.Op == "read" {
+						reads++
+					}
+				}
+				if w.cli && !tf.missing && reads == 0 {
+					return false // command line: the reader's first read call comes after its construction (and Drain)
 				}
 				if w.tail && !tf.missing && seeks == 0 {
 					return false // --tail: the start position is the end of the file once Drain has run
@@ -546,6 +686,10 @@ func c15BatchWorld(rc *RunCtx) {
 				tf.f.Close()
 			}
 		}
+		if w.cli {
+			w.cliStatus(allOver, live)
+			return
+		}
 		// status of the batcher
 		wantErr := 0
 		for _, tf := range w.files {
@@ -569,6 +713,14 @@ func c15BatchWorld(rc *RunCtx) {
 			rc.Violate("liveness-eof", "%s: ActiveFileCount() = %d %v after the last operation, expected %d (files removed under plain follow must end their stream; others stay active)\nhistory:%s", w.mode(), batcher.ActiveFileCount(), c15Bound, wantActive, w.history())
 		}
 	})
+	if w.proc != nil {
+		w.proc.end()
+		os.Stdout, os.Stderr, logger.OsExit = realStdout, realStderr, realOsExit
+		rc.Probes["cli-follow-runs"]++
+		if w.proc.Done {
+			rc.Probes["cli-follow-returned"]++
+		}
+	}
 	rc.Absorb(s)
 	for k, v := range fsnotify.SimStats() {
 		rc.Probes["fsnotify-"+k] += v
@@ -606,4 +758,51 @@ func lastOf(ls [][]byte) []byte {
 		return nil
 	}
 	return ls[len(ls)-1]
+}
+
+var cliSummaryRe = regexp.MustCompile(`Matched: ([\d,]+) / ([\d,]+)`)
+
+// cliStatus (command-line mode): when every followed file has ended (plain follow) the command returns: exit status 0 if
+// something was printed, 1 if nothing matched, 2 if a named path never existed; the summary counts every line of the streams.
+// While a file is still followed the command must not have returned.
+func (w *c15bWorld) cliStatus(allOver bool, live []*tailFile) {
+	rc := w.rc
+	if !allOver {
+		if w.proc.Done {
+			rc.Violate("closed-while-following", "%s: the command returned (exit %d) at fake t=%v although not every followed file had ended\nhistory:%s", w.mode(), w.proc.Res.Exit, w.closedAt, w.history())
+		}
+		return
+	}
+	if !w.proc.Done {
+		return // reported as liveness-close above
+	}
+	total, missing := 0, 0
+	for _, tf := range w.files {
+		if tf.missing {
+			missing++
+			continue
+		}
+		total += len(refSplit(tf.expected))
+	}
+	want := 0
+	switch {
+	case missing > 0:
+		want = 2
+	case total == 0:
+		want = 1
+	}
+	if w.proc.Res.Exit != want {
+		rc.Violate("cli-follow-exit", "%s: exit status %d, expected %d (%d lines in the followed streams, %d paths that never existed)\nhistory:%s", w.mode(), w.proc.Res.Exit, want, total, missing, w.history())
+	}
+	errOut, _ := os.ReadFile(w.proc.ErrName)
+	m := cliSummaryRe.FindSubmatch(errOut)
+	if m == nil {
+		rc.Violate("cli-follow-summary", "%s: no `Matched: M / R` summary on stderr: %q", w.mode(), errOut)
+		return
+	}
+	mm, _ := strconv.Atoi(strings.ReplaceAll(string(m[1]), ",", ""))
+	rr, _ := strconv.Atoi(strings.ReplaceAll(string(m[2]), ",", ""))
+	if mm != total || rr != total {
+		rc.Violate("cli-follow-summary", "%s: summary says Matched: %d / %d, the followed streams hold %d lines\nhistory:%s", w.mode(), mm, rr, total, w.history())
+	}
 }
